@@ -264,6 +264,9 @@ func genLegacyLayout(t *rapid.T, root, repo string, simpleOnly bool) *legacyLayo
 			l.index = append(l.index, mdesc{MediaType: mtIndex, Digest: rd, Size: int64(len(raw)), Annotations: map[string]string{annSubjectL: a.subject}})
 			addWant(a)
 			l.desc = append(l.desc, "pre-existing response for "+short(a.subject))
+			if !l.converted {
+				l.regenerate++ // merging it with a fallback index of the same subject may need a new response blob
+			}
 		}
 	}
 	// unrelated content: a tagged image, an untagged image, a nested index, a stray blob
